@@ -9,6 +9,7 @@ mod ctx;
 mod stepcheck;
 mod threadcheck;
 mod histcheck;
+mod hugecheck;
 mod itercheck;
 mod misccheck;
 mod ppcheck;
@@ -142,6 +143,10 @@ fn main() {
             let f = threadcheck::c15(&c);
             c.finish(f);
         }
+        "huge" => {
+            let f = hugecheck::huge(&c);
+            c.finish(f);
+        }
         "gen-threads" => {
             threadcheck::gen_threads(&c);
         }
@@ -161,6 +166,7 @@ fn main() {
                 "byte" => bytecheck::replay(&c2, &v),
                 "byte-iter" => itercheck::replay(&c2, &v),
                 "eq" => misccheck::eq_replay(&c2, &v),
+                "huge" => hugecheck::huge(&c2).violations.into_iter().next(),
                 "alloc" => alloccheck::replay(&c2, &v),
                 "steps" => stepcheck::replay(&c2, &v),
                 "threads" => threadcheck::replay(&c2, &v),
